@@ -103,6 +103,13 @@ def list_apply(xs: list, op: dict, symbolic: bool) -> Tuple[str, Any, list, Dict
       x.reverse()
     elif o == 'sort':
       x.sort()
+    elif o == 'sortx':
+      kw = {}
+      if a == 1:
+        kw['reverse'] = True
+      if bb == 1:
+        kw['key'] = lambda t: t % 10
+      x.sort(**kw)
     elif o == 'clear':
       x.clear()
     elif o == 'mul':
